@@ -30,10 +30,16 @@ TRUSTED_BASE = [
 
 
 def load_known():
+    """known_findings.json plus per-property fragments known_findings.d/*.json (same format)."""
+    out = []
     p = common.VERIF / "known_findings.json"
-    if not p.exists():
-        return []
-    return json.loads(p.read_text())["findings"]
+    if p.exists():
+        out += json.loads(p.read_text())["findings"]
+    d = common.VERIF / "known_findings.d"
+    if d.is_dir():
+        for f in sorted(d.glob("*.json")):
+            out += json.loads(f.read_text())["findings"]
+    return out
 
 
 def stage_a(ctx, prop, log):
